@@ -7,6 +7,10 @@ pub mod c06;
 pub mod c07;
 pub mod c08;
 pub mod c09;
+pub mod c10;
+pub mod c11;
+pub mod c12;
+pub mod sweep;
 pub mod c13;
 pub mod c16;
 pub mod c17;
@@ -27,6 +31,9 @@ pub fn variants(prop: &str) -> Vec<&'static Variant> {
         "C07" => c07::variants(),
         "C08" => c08::variants(),
         "C09" => c09::variants(),
+        "C10" => c10::variants(),
+        "C11" => c11::variants(),
+        "C12" => c12::variants(),
         "C13" => c13::variants(),
         "C16" => c16::variants(),
         "C17" => c17::variants(),
@@ -47,6 +54,9 @@ pub fn run(prop: &str, ctx: &Ctx) -> Option<i32> {
         "C07" => c07::run(ctx),
         "C08" => c08::run(ctx),
         "C09" => c09::run(ctx),
+        "C10" => c10::run(ctx),
+        "C11" => c11::run(ctx),
+        "C12" => c12::run(ctx),
         "C13" => c13::run(ctx),
         "C16" => c16::run(ctx),
         "C17" => c17::run(ctx),
